@@ -12,4 +12,16 @@ CHECKS = {
         "text": "Every lookup on the real radix tree / repository is compared with an independent executable reference of the documented path-expression semantics; exhaustive for all sets of <=2 expressions from a pool (both orders, all backtracking flags, condition states, all pool paths), sampled for larger sets, insertion orders and rule-set layouts. Held on the cases executed, not a proof for all sets.",
         "note": "Trusts the reference model core/pathref (about 150 lines) as the reading of the statement; rules sharing one expression carry equal backtracking flags; expressions of equal shape (differing only in wildcard names) are treated as one expression.",
     },
+    "C06": {
+        "level": "exploration",
+        "technique": "runtime monitoring: differential oracle (live instance vs fresh instance of the same code) + reference-model oracle after every operation of seeded random rule-set histories",
+        "text": "Random create/update/delete histories over three sources are applied to the real repository through the real rule-set processor; after every operation ~430 probe lookups are compared with an independent reference lookup over the model's current versions, rejected operations must leave all answers unchanged, and at the end of each history (plus one random prefix) with a fresh real instance loaded once with the current versions in two load orders. Held on the histories executed.",
+        "note": "Histories respect the provider contract (no double create, no update/delete of unknown sources); reference model core/pathref; rejection is only predicted for the two reasons named in the statement (expression pool uses consistent wildcard names).",
+    },
+    "C07": {
+        "level": "exploration",
+        "technique": "runtime monitoring: porcupine linearizability check of client-boundary histories + Go race detector + lock-order monitor on lock-shimmed build, child process per batch",
+        "text": "Concurrent writers (one per source) and readers run against the real repository compiled with -race and with scheduler-perturbing lock shims; every recorded history is checked for linearizability against a register-per-source model, a quiescent final-state check detects lost/partial updates, lock-order inversions are detected from the shim's acquisition graph, and crashes/race reports are taken from the child process. Held on the interleavings produced (overlap counts in evidence).",
+        "note": "Each source has a single writer (as providers do). Race freedom only on interleavings produced. Lock shims are a mechanical textual replacement of sync.Mutex/RWMutex in the current repository_impl.go; if the file no longer declares such locks the run is un-instrumented (recorded in evidence).",
+    },
 }
